@@ -175,7 +175,7 @@ class RemoteState(dict):
                 raise TypeError('State should be dict in order to be patched, not {!r}, while patching remote state of an object with type {!r} with patching context: {}'.format(type(state).__name__, type(ret).__name__, RemoteState.current_patches()))
             else:
                 patched_state = state
-            del obj.__setstate__
+            object.__delattr__(obj, '__setstate__') # (not through a __delattr__ the class might define)
             if no_state:
                 pass # just like the unpickler, which does not call __setstate__ if there is no state
             elif orig_getstate is not None:
@@ -193,6 +193,7 @@ class RemoteState(dict):
                         setattr(obj, key, value)
             RemoteState.child_restored(obj)
 
-        ret.__setstate__ = patched_setstate.__get__(ret, type(ret)) # pylint: disable=assignment-from-no-return,no-value-for-parameter
+        # (not through a __setattr__ the class might define: installing the hook is no business of the restored object)
+        object.__setattr__(ret, '__setstate__', patched_setstate.__get__(ret, type(ret))) # pylint: disable=assignment-from-no-return,no-value-for-parameter
         RemoteState.break_patches(children_names)
         return ret
